@@ -66,6 +66,18 @@ def head_type(t):
 def norm_callee(c):
     """normalise a call-site callee to a key"""
     c = c.strip()
+    # inherent method of a crate type called through its impl block:  rules::<impl TreeBuilder<Handle, Sink>>::step
+    mm = re.match(r"^((?:[a-z_][a-z0-9_]*::)*)<impl ([A-Z][A-Za-z0-9_]*)", c)
+    if mm and not c.startswith(("core::", "std::", "alloc::")):
+        d, j = 0, len(mm.group(1))
+        for j in range(len(mm.group(1)), len(c)):
+            if c[j] == "<":
+                d += 1
+            elif c[j] == ">" and c[j - 1] != "-":
+                d -= 1
+                if d == 0:
+                    break
+        c = mm.group(2) + c[j + 1:]
     if c.startswith("<"):
         # <T as Trait>::name...
         d = 0
@@ -207,6 +219,10 @@ class Program:
                 continue
             last = name.split("::")[-1]
             if fn.impl_loc:
+                # a fn item nested in a method keeps the method in its key:  Type::method::nested
+                tail = name.split(fn.impl_loc + ">::", 1)
+                if len(tail) == 2 and "::" in tail[1]:
+                    last = tail[1]
                 st, tr = self.impl_self(fn.impl_loc)
                 if st:
                     if tr:
@@ -278,6 +294,8 @@ class Program:
             mod = self.models.get(short)
             if mod is not None:
                 return mod(m, args, callee)
+            if (key.startswith("<{closure@") or re.match(r"^<[A-Za-z_&' ]+ as Fn(Mut|Once)?>::", key)) and key.split("::")[-1] in ("call", "call_mut", "call_once"):
+                return self.models["<F as Fn>::call"](m, args, callee)
             # generic fallbacks by method name
             g = self.models.get("*::" + key.split("::")[-1])
             if g is not None:
@@ -349,10 +367,45 @@ class Program:
                         vals.append(some(w) if w <= 0x10FFFF else none())
                     self.statics[key] = Ptr([Arr(vals)], 0)
                 return self.statics[key]
-            if ty == "&&str" and ent and isinstance(ent[1], tuple) and ent[1][0] == "fatptr":
-                tgt = ALLOCS.get(self.mir_path, {}).get(ent[1][1])
-                if tgt and isinstance(tgt[1], list) and len(tgt[1]) >= ent[1][2]:
-                    return Ptr([Str([ord(ch) for ch in bytes(tgt[1][:ent[1][2]]).decode("utf-8")])], 0)
+            allocs = ALLOCS.get(self.mir_path, {})
+
+            def fat(items, k):
+                """k-th (pointer, length) pair of an allocation -> (target alloc name, length)"""
+                it = items[9 * k: 9 * k + 9]
+                if len(it) != 9 or not isinstance(it[0], tuple) or not all(isinstance(b, int) for b in it[1:]):
+                    return None
+                return it[0][1], int.from_bytes(bytes(it[1:]), "little")
+
+            def str_at(name, n):
+                tgt = allocs.get(name)
+                if tgt and isinstance(tgt[1], list) and len(tgt[1]) >= n and all(isinstance(b, int) for b in tgt[1][:n]):
+                    return Str([ord(ch) for ch in bytes(tgt[1][:n]).decode("utf-8")])
+                return None
+            if ent and isinstance(ent[1], list):
+                key = ("alloc", mm.group(1), ty)
+                if key in self.statics:
+                    return self.statics[key]
+                val = None
+                fp = fat(ent[1], 0)
+                if ty == "&&str" and fp:
+                    s0 = str_at(*fp)
+                    val = Ptr([s0], 0) if s0 is not None else None
+                elif ty in ("&&[&str]", "&&'static [&'static str]") and fp:
+                    tgt = allocs.get(fp[0])
+                    if tgt and isinstance(tgt[1], list):
+                        strs = []
+                        for k in range(fp[1]):
+                            f2 = fat(tgt[1], k)
+                            s2 = str_at(*f2) if f2 else None
+                            if s2 is None:
+                                strs = None
+                                break
+                            strs.append(s2)
+                        if strs is not None:
+                            val = Ptr([Ptr([Arr(strs)], 0)], 0)
+                if val is not None:
+                    self.statics[key] = val
+                    return val
             return Opaque("static", (ty,))
         if c.startswith("ZeroSized: "):
             z = c[len("ZeroSized: "):].strip()
